@@ -103,6 +103,8 @@ inductive Act
   | addAll (cb : Nat)      -- cf.packet_received.add_callback
   | removeAll (cb : Nat)   -- cf.packet_received.remove_callback   (ValueError when absent)
   | raise                  -- raise an exception; the rest of the script is not run
+  | setPort (p : Nat)      -- mutate the packet object being dispatched: `pk.port = p` (also half of `pk.set_header`)
+  | setChan (c : Nat)      -- `pk.channel = c`
   deriving DecidableEq, Repr
 
 /-- what can be observed (or, for `added`/`removed`, what the spec needs to refer to) -/
@@ -113,6 +115,7 @@ inductive Ev
   | added (r : Reg)        -- a callback appended a registration
   | removed (r : Reg)      -- a callback called remove_header_callback with this pattern
   | raised                 -- the callback just invoked raised
+  | mutated                -- the callback just invoked changed port/channel of the packet object it was given
   | died                   -- the exception escaped `run`: the dispatcher thread is gone
   deriving DecidableEq, Repr
 
@@ -125,25 +128,36 @@ structure St where
   all : List Nat           -- `cf.packet_received.callbacks`
   trace : List Ev          -- chronological
   dead : Bool              -- an exception escaped `run`
+  pk : Nat × Nat := (0, 0) -- current `(pk.port, pk.channel)` of the packet object being dispatched (callbacks can write it)
   deriving DecidableEq, Repr
 
 def St.init : St := { regs := [], all := [], trace := [], dead := false }
 
 def St.push (st : St) (e : Ev) : St := { st with trace := st.trace ++ [e] }
 
+/-- `receive_packet` handed out a packet object with this header -/
+def St.recv (st : St) (hdr : Nat) : St :=
+  { st with trace := st.trace ++ [Ev.pkt hdr], pk := (pkPort hdr, pkChan hdr) }
+
 /-- which loops iterate over a snapshot; `liveFuel` bounds the live dispatch walk (a live walk over a list
 that callbacks keep extending need not terminate) -/
 structure Variant where
   snapDispatch : Bool
   snapRemove : Bool
+  /-- the match uses port/channel read once when the packet was received (fix D71); otherwise it re-reads the
+  live packet object for every registration -/
+  capturedHeader : Bool
   liveFuel : Nat := 100000
 
 /-- the repaired code -/
-def Variant.fixed : Variant := { snapDispatch := true, snapRemove := true }
+def Variant.fixed : Variant := { snapDispatch := true, snapRemove := true, capturedHeader := true }
 /-- the code before the fix for D7 -/
-def Variant.original : Variant := { snapDispatch := false, snapRemove := false }
+def Variant.original : Variant := { snapDispatch := false, snapRemove := false, capturedHeader := false }
+/-- after D7, before D71: snapshot iteration, live packet fields -/
+def Variant.liveHeader : Variant := { snapDispatch := true, snapRemove := true, capturedHeader := false }
 /-- what the current source does (Tie A) -/
-def Variant.code : Variant := { snapDispatch := Gen.C07.dispatchSnapshot, snapRemove := Gen.C07.removeSnapshot }
+def Variant.code : Variant :=
+  { snapDispatch := Gen.C07.dispatchSnapshot, snapRemove := Gen.C07.removeSnapshot, capturedHeader := Gen.C07.matchCapturedHeader }
 
 def Variant.remove (v : Variant) (l : List Reg) (r : Reg) : Option (List Reg) :=
   if v.snapRemove then removeHeaderCallback l r else removeHeaderCallbackLive l r
@@ -162,6 +176,8 @@ def runActs (v : Variant) : St → List Act → St × Bool
     | some l => runActs v { st with all := l } as
     | none => (st.push .raised, true)
   | st, .raise :: _ => (st.push .raised, true)
+  | st, .setPort p :: as => runActs v ({ st with pk := (p, st.pk.2) }.push .mutated) as
+  | st, .setChan c :: as => runActs v ({ st with pk := (st.pk.1, c) }.push .mutated) as
 
 /-- invoke a callback: log the invocation, then run what it does -/
 def invoke (v : Variant) (beh : Beh) (st : St) (e : Ev) : St × Bool :=
@@ -176,6 +192,19 @@ def dispatchSnap (v : Variant) (beh : Beh) (hdr : Nat) : List Reg → St → St
     if r.matches hdr then dispatchSnap v beh hdr rs (invoke v beh st (.call r)).1
     else dispatchSnap v beh hdr rs st
 
+/-- the match condition evaluated for one registration at the moment the generator reaches it -/
+def matchNow (v : Variant) (r : Reg) (hdr : Nat) (st : St) : Bool :=
+  if v.capturedHeader then r.matches hdr
+  else Gen.C07.matchExpr r.port r.portMask r.chan r.chanMask st.pk.1 st.pk.2
+
+/-- snapshot iteration, but `pk.port`/`pk.channel` re-read from the live packet object for every registration
+(the code after D7 and before D71) -/
+def dispatchSnapLivePk (v : Variant) (beh : Beh) (hdr : Nat) : List Reg → St → St
+  | [], st => st
+  | r :: rs, st =>
+    if matchNow v r hdr st then dispatchSnapLivePk v beh hdr rs (invoke v beh st (.call r)).1
+    else dispatchSnapLivePk v beh hdr rs st
+
 /-- the dispatch loop over the live list: the generator's list iterator is an index that is compared with
 the *current* length and reads the *current* element on every step -/
 def dispatchLive (v : Variant) (beh : Beh) (hdr : Nat) : Nat → Nat → St → St
@@ -184,11 +213,13 @@ def dispatchLive (v : Variant) (beh : Beh) (hdr : Nat) : Nat → Nat → St → 
     match st.regs[i]? with
     | none => st
     | some r =>
-      if r.matches hdr then dispatchLive v beh hdr fuel (i + 1) (invoke v beh st (.call r)).1
+      if matchNow v r hdr st then dispatchLive v beh hdr fuel (i + 1) (invoke v beh st (.call r)).1
       else dispatchLive v beh hdr fuel (i + 1) st
 
 def dispatch (v : Variant) (beh : Beh) (hdr : Nat) (st : St) : St :=
-  if v.snapDispatch then dispatchSnap v beh hdr st.regs st else dispatchLive v beh hdr v.liveFuel 0 st
+  if v.snapDispatch then
+    (if v.capturedHeader then dispatchSnap v beh hdr st.regs st else dispatchSnapLivePk v beh hdr st.regs st)
+  else dispatchLive v beh hdr v.liveFuel 0 st
 
 /-- `Caller.call`: `for cb in list(self.callbacks): cb(*args)` - no exception handling, so a raising
 all-packet callback propagates out of `run` -/
@@ -203,7 +234,7 @@ def callerCall (v : Variant) (beh : Beh) (st : St) : St := callerGo v beh st.all
 
 /-- the state in which the port dispatch of a packet starts: the packet was taken from the link and the
 all-packet callbacks have run -/
-def afterAll (v : Variant) (beh : Beh) (st : St) (hdr : Nat) : St := callerCall v beh (st.push (.pkt hdr))
+def afterAll (v : Variant) (beh : Beh) (st : St) (hdr : Nat) : St := callerCall v beh (st.recv hdr)
 
 /-- one iteration of the `while True` loop of `run` for a packet with header `hdr` -/
 def handlePacket (v : Variant) (beh : Beh) (st : St) (hdr : Nat) : St :=
